@@ -38,9 +38,9 @@ import (
 // may not succeed; the node must restart over the image.
 
 const (
-	paPath      = "gno.land/r/sim/pa"
-	pbPath      = "gno.land/r/sim/pb"
-	phelperPath = "gno.land/p/sim/phelper"
+	paPath        = "gno.land/r/sim/pa"
+	pbPath        = "gno.land/r/sim/pb"
+	phelperPath   = "gno.land/p/sim/phelper"
 	sysParamsPath = "gno.land/r/sys/params"
 	realmMetaPfx  = "_realmmeta_"
 )
@@ -63,10 +63,10 @@ type prmTx struct {
 
 type prmWorld struct {
 	*world
-	prev      map[string]string
-	blockKeys map[string]bool // keys every block touches (learned from an empty block)
+	prev        map[string]string
+	blockKeys   map[string]bool // keys every block touches (learned from an empty block)
 	sysDeployed bool
-	written   map[string][]string // realm path -> plain keys it has written (for deletes / overwrites)
+	written     map[string][]string // realm path -> plain keys it has written (for deletes / overwrites)
 }
 
 var advKeys = []string{
@@ -267,9 +267,9 @@ func isPlain(k string) bool {
 
 type sysOp struct {
 	module, sub, name string
-	fn    string // SetString / SetInt64 / SetBool / SetStrings0 / SetStrings1 / SetBytes / AddString
-	val   string
-	valid int // 1 must be accepted by the module, 0 must be rejected, -1 either
+	fn                string // SetString / SetInt64 / SetBool / SetStrings0 / SetStrings1 / SetBytes / AddString
+	val               string
+	valid             int // 1 must be accepted by the module, 0 must be rejected, -1 either
 }
 
 var sysOps = []sysOp{
